@@ -33,6 +33,8 @@ def validate(pid, traces, tag, V, shards=8):
             l = max(1, int(st.get("l", "1")))
             ev = h["ev"][l - 1]
             first = h["ev"][0]
+            if first.get("op") == "given":
+                first = dict(first, via="repotest", ad=first["state"]["ad"], nodes=first["state"]["nodes"])
             why = st.get("why", "").strip('"')
             if v["name"] == "Deadlock":
                 key = "curve/unconsumed-event/%s" % ev.get("op")
@@ -103,6 +105,9 @@ def run(pid, tier):
     rnd = os.path.join(d, "rnd.ndjson")
     if vlib.record(V, ["curve", "record", "--seed", seed, "--n", 200 if quick else 4000, "--out", rnd]):
         traces.append(rnd)
+    rt = vlib.repo_test_traces()              # look-ups recorded while the repository's own tests run (hooks on)
+    if vlib.count_lines(rt["curve"]):
+        traces.append(rt["curve"])
     hist, steps = validate(pid, traces, tag, V, shards=8 if quick else 14)
     bind = binding_demo(pid, traces[0], d, tag) if traces and not V.viol else {"skipped": "violations were found"}
     sample = []
